@@ -129,6 +129,20 @@ def install(ip):
 
     @meth("list", "sort")
     def l_sort(ip, l, a, k):
+        key = k.get("key")
+        if key is not None and not l.symbolic:
+            # keys are concretised by branching on their truthiness (sufficient for the 0/1 keys used in the code base)
+            ks = []
+            for x in l.items:
+                kv = ip.call(key, [x], {})
+                if isinstance(kv, Sym):
+                    kv = 1 if ip.truthy(kv) else 0
+                ks.append(kv)
+            if not all(isinstance(v, (int, float, str, bytes, tuple)) for v in ks):
+                raise Unsupported("sort key")
+            order = sorted(range(len(ks)), key=lambda i: ks[i], reverse=bool(k.get("reverse", False)))
+            l.items = [l.items[i] for i in order]
+            return None
         r = ip.call(ip.builtins["sorted"], [l], k)
         l.items = r.items
 
